@@ -153,7 +153,11 @@ func runProp(w *World, p *propDef, tier, verif string, seed int, start time.Time
 			rc = 2
 		}
 	}()
+	extraNonNil = nil
+	nonNilSummary = map[*ssa.Function]int{}
 	p.Run(c)
+	extraNonNil = nil
+	nonNilSummary = map[*ssa.Function]int{}
 	return c.Finish(verif, start, seed)
 }
 
